@@ -4,7 +4,7 @@
 MC   : TLC checks PassThroughIsIdentity, HtmlGetsExactlyOneScript, LengthMatchesBody and
        EncodingHeaderDescribesBody on the response pipeline for the whole abstract configuration space
        (content type x encoding x request kind x skip marker x CSP shape x body shape x client
-       Accept-Encoding = 5376 configurations). Negative configs that TLC must reject: the pipeline as coded
+       Accept-Encoding = 6272 configurations). Negative configs that TLC must reject: the pipeline as coded
        at the pinned commit (an unsupported Content-Encoding falls through to the rewrite) and a forgotten
        Content-Length update.
 GEN  : what the tree does with an unsupported encoding is probed on the real proxy and selects the spec
@@ -71,7 +71,7 @@ def main():
     gen = vlib.tlc("Proxy", "g.cfg", files={"g.cfg": cfg_with("Proxy_gen.cfg", UnsupportedRule='"%s"' % rule)},
                    workers=1, timeout=900)
     cases = gen.tagged("CASE")
-    if not gen.ok or len(cases) != 4 * 4 * 2 * 2 * 6 * 7 * 2:
+    if not gen.ok or len(cases) != 4 * 4 * 2 * 2 * 7 * 7 * 2:
         raise vlib.InfraError("case emission incomplete: %d cases" % len(cases))
     ck.add_tlc(gen, "Proxy_gen (case emission, UnsupportedRule=%s)" % rule)
     sc = vlib.scratch()
@@ -103,7 +103,7 @@ def main():
     ck.set("exhaustive", True)
     ck.set("bounds", {"content_types": 4, "encodings": 4, "requests": 2, "skip_marker": 2, "csp_shapes": 6, "body_shapes": 7,
                       "accept_encoding": 2, "sizes": "0, ~1 KiB, 4095..4097, 32767..32769, 65536, 3 MiB (seeded subset)"})
-    ck.set("rule", "every abstract configuration (5376) is replayed end to end on the real proxy at >= 2 body sizes; "
+    ck.set("rule", "every abstract configuration (6272) is replayed end to end on the real proxy at >= 2 body sizes; "
                    "documents are well-formed pages stable under x/net/html parse/render/parse")
     ck.assume("Content-Type and Content-Encoding tokens are lower-case as servers send them; one Content-Security-Policy header line")
     ck.assume("a client that sends no Accept-Encoding gets Go's transport-level transparent gunzip: pass-through is then judged on the decoded bytes")
